@@ -318,21 +318,29 @@ def goal_model(g, st, scope=()):
 
 
 def peel(g):
-    """Mirror of chalk's `into_peeled_goal` on the abstract goal: strips the outer quantifiers.
-    Returns (prefix, body, evars) where prefix is a list of ("E", var) / ("A", var, ph_id),
-    the forall variables are numbered 0,1,.. in peel order (TPh k), evars the exists variables
-    in peel order.  Outer `if`s are NOT peeled here (they stay in the body: same meaning)."""
-    prefix, evars, nph = [], [], 0
-    while g[0] in ("forall", "exists"):
-        for v in g[1]:
-            if g[0] == "forall":
-                prefix.append(("A", v, nph))
-                nph += 1
-            else:
-                prefix.append(("E", v))
-                evars.append(v)
-        g = g[2]
-    return prefix, g, evars
+    """Mirror of chalk's `into_peeled_goal` on the abstract goal: strips the outer quantifiers,
+    looking through outer `if`s exactly like chalk does (the hypotheses stay in the body, which
+    has the same meaning as moving them into the environment).
+    Returns (prefix, body, evars): prefix = list of ("E", var) / ("A", var, ph_id) in binder
+    order, the forall variables numbered 0,1,.. in peel order (TPh k); evars = the exists
+    variables in peel order; body = the goal without the peeled quantifiers."""
+    prefix, evars, nph = [], [], [0]
+
+    def go(g):
+        if g[0] in ("forall", "exists"):
+            for v in g[1]:
+                if g[0] == "forall":
+                    prefix.append(("A", v, nph[0]))
+                    nph[0] += 1
+                else:
+                    prefix.append(("E", v))
+                    evars.append(v)
+            return go(g[2])
+        if g[0] == "if":
+            return ("if", g[1], go(g[2]))
+        return g
+    body = go(g)
+    return prefix, body, evars
 
 
 def query_model(g, st):
@@ -467,6 +475,9 @@ def answer_ty(t):
         return ("ph", (t[1], t[2]))
     if h == "Free":
         return ("free",)
+    if h == "Lt":
+        # lifetimes are not compared (their values are entangled with the region constraints)
+        return ("adt", "#lifetime", ())
     return ("adt", "#" + sx.to_sexp(t), ())
 
 
